@@ -7,12 +7,14 @@ CONSTANTS
   WithBad = FALSE
   WithInv = FALSE
   Dyn = FALSE
+  WithDC = TRUE
 VIEW View
 INVARIANT PlacementsExact
 INVARIANT NoDuplicates
 INVARIANT OutputBracketed
 INVARIANT DeletionsFirst
 INVARIANT ClearedOnStartStopClear
+INVARIANT ClearedByDirectCall
 INVARIANT NoGraphicsIfUnsupported
 INVARIANT TerminalSane
 INVARIANT DistinctZ
